@@ -354,6 +354,10 @@ def differ(lhs, rhs, env, st, timeout_ms=4000, bounded=False):
 # ---- obligations per tree ---------------------------------------------------------------------------
 
 
+def _mentions_symbol(t):
+    return isinstance(t, (list, tuple)) and (t[0] == "sym" or any(_mentions_symbol(x) for x in t[1:]))
+
+
 def check_tree(chk, t, st, ir, parse):
     """All obligations for one expression tree.  Returns number of undecided queries."""
     from onnx_ir import serde
@@ -368,8 +372,10 @@ def check_tree(chk, t, st, ir, parse):
         chk.obligations += 1
         chk.violation("C16:build:zerodivision", f"{label}: building the expression raised ZeroDivisionError although it is defined for some binding", dict(kind="build", tree=t))
         return 0
+    if not isinstance(d, ir.SymbolicDim) and not _mentions_symbol(t):
+        return 0  # a tree of integer literals only: Python's own arithmetic, nothing of the library is exercised
     if not isinstance(d, ir.SymbolicDim):
-        # constant folding by Python ints: compare exactly
+        # the library folded an expression over symbols to a constant: compare exactly
         want = ref_exact(t, {})
         chk.obligations += 1
         if want is not None and Fraction(d) == want:
